@@ -21,6 +21,7 @@ type Job struct {
 	Scenario *Scenario `json:"scenario,omitempty"`
 	Dump     bool      `json:"dump,omitempty"` // include the generated scenario in the verdict
 	GenOnly  bool      `json:"genonly,omitempty"`
+	Known    []string  `json:"known,omitempty"` // "oracle|signature" patterns of open known findings
 }
 
 var out = bufio.NewWriter(os.Stdout)
@@ -62,6 +63,7 @@ func runJob(t *testing.T, job *Job) (vd *Verdict) {
 				}
 			}()
 			ResetHooks(sc)
+			SetKnown(job.Known)
 			vd = Execute(sc)
 		})
 	}()
